@@ -147,6 +147,61 @@ def _string_to_number(text: str) -> Union[int, float]:
     return float(s)
 
 
+_FLOAT_PREFIX = re.compile(
+    r"[+-]?(?:Infinity|(?:[0-9]+\.?[0-9]*|\.[0-9]+)(?:[eE][+-]?[0-9]+)?)"
+)
+
+
+def parse_float(text: str) -> float:
+    """parseFloat: the longest prefix that is a StrDecimalLiteral, NaN if none."""
+    match = _FLOAT_PREFIX.match(text.lstrip(JS_WHITESPACE))
+    if not match:
+        return float("nan")
+    literal = match.group(0)
+    if literal.endswith("Infinity"):
+        return float("-inf") if literal[0] == "-" else float("inf")
+    return float(literal)
+
+
+def parse_int(text: str, radix: int) -> Union[int, float]:
+    """parseInt: radix is already reduced by ToInt32 (0 means 'not given')."""
+    s = text.lstrip(JS_WHITESPACE)
+    negative = s.startswith("-")
+    if s[:1] in ("+", "-"):
+        s = s[1:]
+    strip_prefix = True
+    if radix != 0:
+        if radix < 2 or radix > 36:
+            return float("nan")
+        strip_prefix = radix == 16
+    else:
+        radix = 10
+    if strip_prefix and s[:2] in ("0x", "0X"):
+        s = s[2:]
+        radix = 16
+    digits = "0123456789abcdefghijklmnopqrstuvwxyz"[:radix]
+    end = 0
+    while end < len(s) and s[end].lower() in digits and s[end].isascii():
+        end += 1
+    if end == 0:
+        return float("nan")
+    value: Union[int, float] = int(s[:end], radix)
+    if value > 2**53:
+        value = float(value)
+    if negative:
+        return -value if value != 0 else -0.0
+    return value
+
+
+def to_int32(value: JSValue) -> int:
+    """ToInt32."""
+    n = to_number(value)
+    if isinstance(n, float) and (math.isnan(n) or math.isinf(n)):
+        return 0
+    n = int(n) & 0xFFFFFFFF
+    return n - 0x100000000 if n >= 0x80000000 else n
+
+
 def to_number(value: JSValue) -> Union[int, float]:
     """Convert a JavaScript value to number."""
     if value is UNDEFINED:
